@@ -74,8 +74,15 @@ pub fn run(seed: u64, n: usize, bin: &str, scratch: &str, driver: &str, out: &st
                 }
             };
             used.push(name);
-            let content: Vec<u8> = match rng.below(9) {
+            let content: Vec<u8> = match rng.below(10) {
                 0 => vec![],
+                9 => {
+                    // gb18030 with its 4-byte signature and mostly ASCII text: the UTF-8 form is SHORTER than the file
+                    let mut b = b"\x84\x31\x95\x33".to_vec();
+                    b.extend_from_slice(&ascii_text(&mut rng, 150));
+                    b.extend_from_slice(&encode_text("\u{4f60}\u{597d}\u{4e16}\u{754c} \u{8fd9}\u{662f}\u{4e00}\u{4e2a}\u{6d4b}\u{8bd5}\u{6587}\u{4ef6}", "gb18030").unwrap_or_default());
+                    b
+                }
                 1 => ascii_text(&mut rng, 200),
                 2 => (0..rng.range(10, 300)).map(|_| rng.below(256) as u8).collect(),
                 3 => {
@@ -119,6 +126,25 @@ pub fn run(seed: u64, n: usize, bin: &str, scratch: &str, driver: &str, out: &st
                     } else {
                         inputs.push(p2.to_string_lossy().to_string());
                         inputs.push(p1.to_string_lossy().to_string());
+                    }
+                }
+            }
+        }
+        // sometimes the sibling the tool is going to write already exists and is LONGER than what will be written
+        // (an earlier run on a longer version of the input)
+        if rng.chance(1, 3) {
+            let s0 = NormalizerSettings::default();
+            for p in inputs.clone() {
+                if let Ok(body) = std::fs::read(&p) {
+                    if let Outcome::Ok(ms) = run_real(&body, &s0) {
+                        if let Some(b) = ms.get_best() {
+                            let sp = sibling(&p, b.encoding());
+                            if !inputs.contains(&sp) && !Path::new(&sp).exists() {
+                                let mut old = b.decoded_payload().unwrap_or("").as_bytes().to_vec();
+                                old.extend_from_slice(&ascii_text(&mut rng, 400));
+                                std::fs::write(&sp, old).unwrap();
+                            }
+                        }
                     }
                 }
             }
@@ -206,6 +232,11 @@ pub fn run(seed: u64, n: usize, bin: &str, scratch: &str, driver: &str, out: &st
         }
         let case = json!({"dir_files": files.iter().map(|(p, c)| json!({"path": p, "len": c.as_ref().map(|b| b.len()), "bytes": c.as_ref().map(|b| short(b, 40))})).collect::<Vec<_>>(),
                           "args": args, "status": status});
+        let full_case = || {
+            let mut c = case.clone();
+            c["files_hex"] = json!(files.iter().map(|(p, c)| json!({"path": p, "bytes_hex": c.as_ref().map(|b| hex(b))})).collect::<Vec<_>>());
+            c
+        };
         if status != m_status {
             diffs.push(json!({"what": "exit status", "real": status, "model": m_status, "case": case, "stderr": String::from_utf8_lossy(&outp.stderr).chars().take(300).collect::<String>()}));
         }
@@ -253,6 +284,25 @@ pub fn run(seed: u64, n: usize, bin: &str, scratch: &str, driver: &str, out: &st
                                 "is_preferred": true});
                             if *r != exp {
                                 diffs.push(json!({"what": "report record", "real": r, "model": exp, "case": case}));
+                                // the expected record is the library's own answer for this file and threshold (Q LIB), laid out by
+                                // Cli.report (CliFacts.report_records_from_library): a difference in one of the fields C16 names is a violation
+                                let set = |v: &serde_json::Value| -> std::collections::BTreeSet<String> { v.as_array().map(|a| a.iter().map(|x| x.to_string()).collect()).unwrap_or_default() };
+                                let num = |v: &serde_json::Value| -> f64 { v.as_str().and_then(|x| x.parse::<f64>().ok()).or(v.as_f64()).unwrap_or(f64::NAN) };
+                                let mut bad_fields = vec![];
+                                for f in ["encoding", "language", "has_sig_or_bom"] {
+                                    if r.get(f) != exp.get(f) { bad_fields.push(f); }
+                                }
+                                for f in ["encoding_aliases", "alternative_encodings", "alphabets"] {
+                                    if r.get(f).map(&set) != exp.get(f).map(&set) { bad_fields.push(f); }
+                                }
+                                for f in ["chaos", "coherence"] {
+                                    let (a, b) = (num(r.get(f).unwrap_or(&serde_json::Value::Null)), num(exp.get(f).unwrap_or(&serde_json::Value::Null)));
+                                    if !((a - b).abs() <= 0.051) { bad_fields.push(f); }
+                                }
+                                if !bad_fields.is_empty() {
+                                    violations.push(json!({"prop": "C16", "what": format!("report for {} disagrees with the library's result in: {}", unh(&m[0]), bad_fields.join(", ")),
+                                        "known": null, "real": r, "library": exp, "case": full_case()}));
+                                }
                             }
                         }
                     }
@@ -262,19 +312,19 @@ pub fn run(seed: u64, n: usize, bin: &str, scratch: &str, driver: &str, out: &st
         // ---- the properties, directly ----
         let bad = (fl.replace && !fl.normalize) || (!fl.replace && fl.force) || !(0.0..=1.0).contains(&thr);
         if bad && (status == 0 || !stdout.trim().is_empty() || before != after) {
-            violations.push(json!({"prop": "C16", "what": "a contradictory / out-of-range invocation was not rejected cleanly (status, stdout or files)", "known": null, "case": case}));
+            violations.push(json!({"prop": "C16", "what": "a contradictory / out-of-range invocation was not rejected cleanly (status, stdout or files)", "known": null, "case": full_case()}));
         }
         if !fl.normalize && before != after {
-            violations.push(json!({"prop": "C15", "what": "files changed although --normalize was not given", "known": null, "case": case}));
+            violations.push(json!({"prop": "C15", "what": "files changed although --normalize was not given", "known": null, "case": full_case()}));
         }
         if missing && !bad && (status == 0 || !stdout.trim().is_empty()) {
-            violations.push(json!({"prop": "C16", "what": "a missing input did not give a non-zero status and an empty stdout", "known": null, "case": case}));
+            violations.push(json!({"prop": "C16", "what": "a missing input did not give a non-zero status and an empty stdout", "known": null, "case": full_case()}));
         }
         let readable = !missing && inputs.iter().all(|p| Path::new(p).is_file());
         if !bad && readable {
             nontrivial += 1;
             if status != 0 {
-                violations.push(json!({"prop": "C16", "what": format!("readable inputs but exit status {}: {}", status, String::from_utf8_lossy(&outp.stderr).chars().take(200).collect::<String>()), "known": null, "case": case}));
+                violations.push(json!({"prop": "C16", "what": format!("readable inputs but exit status {}: {}", status, String::from_utf8_lossy(&outp.stderr).chars().take(200).collect::<String>()), "known": null, "case": full_case()}));
             }
             // library view of every input (as it was before the run)
             let settings = NormalizerSettings { threshold: OrderedFloat(thr), ..Default::default() };
@@ -292,23 +342,23 @@ pub fn run(seed: u64, n: usize, bin: &str, scratch: &str, driver: &str, out: &st
                             }
                         });
                         violations.push(json!({"prop": "C15", "what": format!("input {} was modified by --normalize without --replace", p),
-                            "known": if collides { json!("D5-sibling-is-an-input") } else { serde_json::Value::Null }, "case": case}));
+                            "known": if collides { json!("D5-sibling-is-an-input") } else { serde_json::Value::Null }, "case": full_case()}));
                     }
                     if let Some((enc, Some(text))) = &best {
                         let sib = sibling(p, enc);
                         if !enc.starts_with("utf") {
                             if after.get(&sib).cloned().flatten() != Some(text.as_bytes().to_vec()) && !inputs.contains(&sib) {
-                                violations.push(json!({"prop": "C15", "what": format!("sibling {} missing or not the UTF-8 form of the decoded input", sib), "known": null, "case": case}));
+                                violations.push(json!({"prop": "C15", "what": format!("sibling {} missing or not the UTF-8 form of the decoded input", sib), "known": null, "case": full_case()}));
                             }
                         } else if after.get(&sib) != before.get(&sib) {
-                            violations.push(json!({"prop": "C15", "what": format!("input detected as {} but a sibling was written", enc), "known": null, "case": case}));
+                            violations.push(json!({"prop": "C15", "what": format!("input detected as {} but a sibling was written", enc), "known": null, "case": full_case()}));
                         }
                     }
                 }
                 if fl.normalize && fl.replace && fl.force {
                     if let Some((enc, Some(text))) = &best {
                         if !enc.starts_with("utf") && after.get(p).cloned().flatten() != Some(text.as_bytes().to_vec()) {
-                            violations.push(json!({"prop": "C15", "what": format!("--replace --force did not overwrite {} with the decoded text", p), "known": null, "case": case}));
+                            violations.push(json!({"prop": "C15", "what": format!("--replace --force did not overwrite {} with the decoded text", p), "known": null, "case": full_case()}));
                         }
                     }
                 }
@@ -320,7 +370,7 @@ pub fn run(seed: u64, n: usize, bin: &str, scratch: &str, driver: &str, out: &st
             }).collect();
             for (p, c) in &after {
                 if before.get(p) != Some(c) && !allowed.contains(p) {
-                    violations.push(json!({"prop": "C15", "what": format!("unexpected file change: {}", p), "known": null, "case": case}));
+                    violations.push(json!({"prop": "C15", "what": format!("unexpected file change: {}", p), "known": null, "case": full_case()}));
                 }
             }
         }
